@@ -33,7 +33,7 @@ type dictQuery struct {
 
 type dictCase struct {
 	Batch      *spec.BatchSpec `json:"batch"`
-	Provenance int             `json:"provenance"` // 0 built, 1 opened, 2 merged once, 3 merged twice, 4 merged after a segment without these fields, with deletions
+	Provenance int             `json:"provenance"`      // 0 built, 1 opened, 2 merged once, 3 merged twice, 4 merged after a segment without these fields, with deletions
 	Drops      []spec.DropSpec `json:"drops,omitempty"` // provenance 4: deletions of the neighbour (3 docs) and of the batch
 	ChunkMode  uint32          `json:"chunkMode"`
 	Queries    []dictQuery     `json:"queries"`
@@ -158,7 +158,7 @@ var regexpPieces = []string{"a", "b", "c", ".", "a*", "b+", "[ab]", "(a|b)", ".*
 func genDictCase(t *rapid.T) dictCase {
 	c := dictCase{}
 	nDocs := rapid.IntRange(1, 6).Draw(t, "nDocs")
-	fields := []string{"f", "g"}
+	fields := []string{"f", "g", "z"} // z is indexed without freq/norm (frequency 0) and without locations
 	docs := make([]spec.DocSpec, nDocs)
 	for i := range docs {
 		docs[i] = spec.DocSpec{ID: spec.B(fmt.Sprintf("d%d", i))}
@@ -166,7 +166,7 @@ func genDictCase(t *rapid.T) dictCase {
 	var allTerms []string
 	for fi, fname := range fields {
 		maxT := 14
-		if fi == 1 {
+		if fi >= 1 {
 			maxT = 4
 		}
 		nTerms := rapid.IntRange(0, maxT).Draw(t, fname+"nTerms")
@@ -198,6 +198,9 @@ func genDictCase(t *rapid.T) dictCase {
 				if locs {
 					tok.Locs = []spec.LocSpec{{Pos: 1, Start: 0, End: 1}}
 				}
+				if fname == "z" {
+					tok.Freq, tok.Locs = 0, nil
+				}
 				perDoc[d] = append(perDoc[d], tok)
 			}
 		}
@@ -223,7 +226,7 @@ func genDictCase(t *rapid.T) dictCase {
 	nQ := rapid.IntRange(1, 6).Draw(t, "nQueries")
 	for i := 0; i < nQ; i++ {
 		ql := fmt.Sprintf("q%d", i)
-		q := dictQuery{Field: rapid.SampledFrom([]string{"f", "f", "f", "g", "nosuchfield", "_id"}).Draw(t, ql+"field")}
+		q := dictQuery{Field: rapid.SampledFrom([]string{"f", "f", "f", "g", "z", "nosuchfield", "_id"}).Draw(t, ql+"field")}
 		q.Auto = rapid.SampledFrom([]string{"nil", "all", "prefix", "regexp", "lev", "exact", "contains", "lenmod3", "never"}).Draw(t, ql+"auto")
 		switch q.Auto {
 		case "exact", "prefix", "lev":
@@ -345,6 +348,22 @@ func runDictCase(c dictCase) *Violation {
 	defer closeFn()
 	var v *Violation
 	err := drive.Safe(func() error {
+		type ent struct {
+			term  string
+			count uint64
+		}
+		type running struct {
+			qi     int
+			q      dictQuery
+			itr    segment.DictionaryIterator
+			exp    []ent
+			got    []ent
+			sorted []string
+			done   bool
+			desc   string
+		}
+		dicts := map[string]segment.TermDictionary{} // ONE dictionary object per field, shared by all its queries
+		var runs []*running
 		for qi, q := range c.Queries {
 			a, err := buildAutomaton(q)
 			if err != nil {
@@ -356,10 +375,6 @@ func runDictCase(c dictCase) *Violation {
 				sorted = append(sorted, t)
 			}
 			sort.Strings(sorted)
-			type ent struct {
-				term  string
-				count uint64
-			}
 			var exp []ent
 			for _, t := range sorted {
 				if q.HasStart && t < string(q.Start) {
@@ -373,9 +388,13 @@ func runDictCase(c dictCase) *Violation {
 				}
 				exp = append(exp, ent{t, uint64(len(modelTerms[t]))})
 			}
-			d, err := seg.Dictionary(q.Field)
-			if err != nil {
-				return fmt.Errorf("Dictionary(%q): %w", q.Field, err)
+			d := dicts[q.Field]
+			if d == nil {
+				d, err = seg.Dictionary(q.Field)
+				if err != nil {
+					return fmt.Errorf("Dictionary(%q): %w", q.Field, err)
+				}
+				dicts[q.Field] = d
 			}
 			var start, end []byte
 			if q.HasStart {
@@ -384,22 +403,32 @@ func runDictCase(c dictCase) *Violation {
 			if q.HasEnd {
 				end = []byte(q.End)
 			}
-			itr := d.AutomatonIterator(a, start, end)
-			var got []ent
-			for {
-				e, err := itr.Next()
-				if err != nil {
-					return fmt.Errorf("query %d iteration: %w", qi, err)
-				}
-				if e == nil {
-					break
-				}
-				got = append(got, ent{e.Term, e.Count})
-				if len(got) > len(sorted)+5 {
-					break
-				}
-			}
 			desc := fmt.Sprintf("query %d field %q automaton %s(%q,%d) range [%v %q, %v %q) provenance %d", qi, q.Field, q.Auto, q.Arg, q.Dist, q.HasStart, q.Start, q.HasEnd, q.End, c.Provenance)
+			runs = append(runs, &running{qi: qi, q: q, itr: d.AutomatonIterator(a, start, end), exp: exp, sorted: sorted, desc: desc})
+		}
+		// drain all enumerations interleaved (one step each, round robin)
+		for active := len(runs); active > 0; {
+			active = 0
+			for _, r := range runs {
+				if r.done {
+					continue
+				}
+				e, err := r.itr.Next()
+				if err != nil {
+					return fmt.Errorf("query %d iteration: %w", r.qi, err)
+				}
+				if e == nil || len(r.got) > len(r.sorted)+5 {
+					r.done = true
+					continue
+				}
+				r.got = append(r.got, ent{e.Term, e.Count})
+				active++
+			}
+		}
+		for _, r := range runs {
+			got, exp, desc, q := r.got, r.exp, r.desc, r.q
+			sorted, modelTerms := r.sorted, want.Index[r.q.Field]
+			d := dicts[q.Field]
 			if len(got) != len(exp) {
 				v = violation(prop, "dict/term-set", "%s: got terms %q, model %q", desc, got, exp)
 				return nil
